@@ -237,6 +237,12 @@ class Session(object):
             ev["exc_tb"] = "".join(traceback.format_exception(type(exc), exc, exc.__traceback__))[-1200:]
             exc = None   # never keep the exception object: its traceback would tie solver clones into a reference cycle
             reset_lib_state()
+        # M4: solver handles left in the object's model after the call (observation), then scrub them so
+        # that pyboolector nodes never end up in a garbage cycle of the harness process
+        try:
+            ev["leftover_handles"] = model_handles(self.live[inst].get_model(), scrub=True)
+        except Exception:
+            ev["leftover_handles"] = None
         try:
             ev["post"] = self.snapshot(inst)
         except Exception as e:  # a read path that raises is itself an observation
@@ -327,3 +333,23 @@ def diff_nonrandom(call, pre, post):
         if a != b:
             out.append((p, a, b))
     return out
+
+
+def model_handles(model, scrub=False, _seen=None, _out=None):
+    """names of field models that still hold a solver node (var / cached sum or product node)"""
+    if _seen is None:
+        _seen, _out = set(), []
+    if id(model) in _seen:
+        return _out
+    _seen.add(id(model))
+    for attr in ("var", "sum_expr_btor", "product_expr_btor"):
+        if getattr(model, attr, None) is not None:
+            _out.append("%s.%s" % (getattr(model, "fullname", "?"), attr))
+            if scrub:
+                setattr(model, attr, None)
+    sz = getattr(model, "size", None)
+    if sz is not None and hasattr(sz, "var"):
+        model_handles(sz, scrub, _seen, _out)
+    for f in getattr(model, "field_l", []) or []:
+        model_handles(f, scrub, _seen, _out)
+    return _out
